@@ -123,7 +123,7 @@ def handleStats (focus : String) (c : Case) : String := Id.run do
     -- a numerically singular H^T H may be inverted by one elimination and rejected by the other;
     -- everything else is a disagreement
     let illc := (match modelStats with | some (.error .matrixInversion) => true | _ => false) ||
-      (term.wasSuccessful && coefImpl.isSome && n > m + p && !(1e2 * u * kapEarly * kapEarly * kapEarly ≤ 5e-2))
+      (term.wasSuccessful && coefImpl.isSome && n > m + p && !(1e3 * u * kapEarly * kapEarly * kapEarly ≤ 5e-2))
     if !illc then
       acc := { acc with corr := acc.corr.push s!"statistics-{if hasStats then "present" else "absent"}-model-says-{tagOut}" }
   if (kind == "ok") != hasStats then
@@ -206,8 +206,8 @@ def handleStats (focus : String) (c : Case) : String := Id.run do
     let covI : FMat := FMat.ofFn covU.r covU.c fun i j => covU.get i j * coln.getD i 1.0 * coln.getD j 1.0
     let cmaxv := covI.maxAbs
     -- nalgebra's closed-form inverse for d ≤ 4 (cofactors) loses about κ(HᵀH)^1.5 = κ(H)³ (measured: 8.7e-5
-    -- relative error at κ(H) = 2.2e4 in f64), so the bound is 1e2·u·κ(H)³·d
-    let invBound := 1e2 * u * kapH * kapH * kapH * d.toFloat
+    -- relative error at κ(H) = 2.2e4 in f64), so the bound is 1e3·u·κ(Ĥ)³·d with the column-equilibrated Ĥ (observed up to 108·u·κ³·d: soak seed 11)
+    let invBound := 1e3 * u * kapH * kapH * kapH * d.toFloat
     let tolCov := invBound * cmaxv + 1e-300
     if tolCov ≤ 5e-2 * cmaxv then
       acc := { acc with compared := acc.compared + 3 }
@@ -273,7 +273,7 @@ def handleStats (focus : String) (c : Case) : String := Id.run do
         q := q + Jf.get i a * inner
       return q.sqrt
     let qscale := arrMaxAbs ucs
-    let invBound := 1e2 * u * kapH * kapH * kapH * d.toFloat
+    let invBound := 1e3 * u * kapH * kapH * kapH * d.toFloat
     let wellCond := invBound ≤ 5e-2
     let mut prevBand : Option (Array Float) := none
     for l in c.body do
